@@ -127,7 +127,7 @@ def finish(chk, seed=0, out=sys.stdout, write=True):
         with open(rp, "w") as fh:
             json.dump(rec, fh, indent=1)
         loc = f"{o.where}" + (f":{o.line}" if o.line else "")
-        print(f"  {chk.pid} {o.rule} @ {loc}: found {o.found!r}; expected {o.expected!r}. {o.detail}", file=out)
+        print(f"  {chk.pid} {o.rule} [{o.key}] @ {loc}: found {o.found!r}; expected {o.expected!r}. {o.detail}", file=out)
         print(f"VIOLATION property={chk.pid} replay={rp}", file=out)
     n_ob = len(chk.obs)
     n_ok = sum(1 for o in chk.obs if o.ok)
